@@ -223,6 +223,45 @@ func mtqueriesMain(args []string) int {
 	}
 	rep.Evaluations = n
 	rep.Nontrivial = negatives + int64(ops["eq"])
+	// an extension that registers, as ITS alias, a name another format already carries: both formats Is that name
+	for _, t := range tree {
+		if len(t.Aliases) == 0 || t.Parent == nil {
+			continue
+		}
+		shared := t.Aliases[0]
+		t.M.Extend(func([]byte, uint32) bool { return false }, "verif/shares-an-alias", ".sha", shared)
+		ext := mimetype.Lookup("verif/shares-an-alias")
+		for _, who := range []*mimetype.MIME{t.M, ext} {
+			if who == nil || !who.Is(shared) || !who.Is(strings.ToUpper(shared)+"; q=1") {
+				rep.violate(Violation{Property: "C15", Kind: "shared-alias", Text: fmt.Sprintf("%v.Is(%q) after an extension registered the same alias", who, shared), Detail: "false", Key: "C15|shared-alias|" + shared})
+			}
+		}
+		if l := mimetype.Lookup(shared); l == nil || !l.Is(shared) {
+			rep.violate(Violation{Property: "C15", Kind: "shared-alias-lookup", Text: fmt.Sprintf("Lookup(%q)", shared), Detail: fmt.Sprintf("%v", l), Key: "C15|shared-alias-lookup|" + shared})
+		}
+		n++
+		break
+	}
+	// a history: decorated spellings, then several hundred other distinct strings, then the same spellings again
+	{
+		html := mimetype.Lookup("text/html")
+		probes := []string{"text/html; charset=utf-8", "TEXT/HTML ; q=0.5", " text/html"}
+		ask := func(stage string) {
+			for _, p := range probes {
+				if html == nil || !html.Is(p) || !mimetype.EqualsAny(p, "image/png", "text/html") || html.Is("image/png; x="+p[:4]) {
+					rep.violate(Violation{Property: "C15", Kind: "answers-depend-on-history", Text: fmt.Sprintf("text/html against %q (%s)", p, stage), Detail: "Is / EqualsAny changed their answer", Key: "C15|history|" + p + stage})
+				}
+			}
+		}
+		ask("first")
+		for i := 0; i < 400; i++ {
+			s := fmt.Sprintf("application/x-filler-%d; n=%d", i, i)
+			_ = html.Is(s)
+			_ = mimetype.EqualsAny(s, "text/plain")
+		}
+		ask("after 400 other strings")
+		n += 6
+	}
 	mimetype.VerifResetTree()
 	var corpusResults, withAliasedAncestor int64
 	if *corpus != "" {
